@@ -1,5 +1,5 @@
 """C05 — decoding is a pure function of graph, fixed values and vector (operation histories vs a fresh processor)."""
-from props import _ops
+from props import _ops, _proc
 import dsgcase
 
 ID = 'C05'
@@ -9,14 +9,15 @@ RULE = ('G-sel graphs with 0-2 design-variable nodes (90% outside the known-find
         'history of 6-12 operations over {decode(x, create), enumerate, statistics, fix, free, mutate the last returned instance, '
         'pickle round trip}; after every operation the output is compared with a freshly built processor carrying the same fixed '
         'values; returned instances must carry no stored values; non-trivial = history of at least 2 executed operations; '
-        'distinct = graph + encoder + history')
+        'distinct = graph + encoder + history; second batch: processors over graphs with 1-3 connection choices: every enumerated row decoded on one long-lived processor (in enumeration order, then shuffled) must give the architecture a fresh processor gives for that row alone, and never an instance handed out before')
 TRUSTED = ['the oracle of this check is the implementation itself on a fresh processor (metamorphic); the Coq side proves the '
            'mask/cache protocol pure for any correction search that is a consistent choice function',
            'after a pickle round trip nodes are recognised by their string']
 PARTIAL = ['another process with another hash seed: exercised under C18 machinery (subprocess runs), not here',
            'the hypothesis that the implementation\'s correction search is a consistent choice function is not proved']
-batches = _ops.make_batches('C05', 600, 6000)
-run_case = _ops.make_run_case(CLAUSES)
+CONN_CLAUSES = ('decode-differs-from-fresh-processor', 'second-decode-gives-another-architecture', 'returned-instance-not-pristine')
+batches = _proc.add_conn_batch(_ops.make_batches('C05', 600, 6000), 'C05', n_quick=48, n_thorough=600)
+run_case = _proc.wrap_run_case(_ops.make_run_case(CLAUSES), CONN_CLAUSES, focus='history')
 compare = _ops.compare
-shrink_candidates = _ops.shrink_candidates
-match_known = dsgcase.match_known
+shrink_candidates = _proc.wrap_shrink(_ops.shrink_candidates)
+match_known = _proc.wrap_match_known(dsgcase.match_known)
